@@ -1,0 +1,11 @@
+//go:build verif
+
+package packp
+
+import "github.com/go-git/go-git/v6/plumbing"
+
+// VerifC53ParseLsRefsLine exposes parseLsRefsLine to the verification
+// harness (mirror of FuzzParseLsRefsLine).
+func VerifC53ParseLsRefsLine(line string) ([]*plumbing.Reference, error) {
+	return parseLsRefsLine(line)
+}
